@@ -49,6 +49,8 @@ def compare_graphs(run, g1, g2, parsed, key, what):
         return False
     n1, n2 = numbers_of(g1), numbers_of(g2)
     for j, pv in enumerate(parsed['verts']):
+        if pv['kind'] == 'SE3' and quat_close(n2['verts'][j][3:], n1['verts'][j][3:]) and all(close(n2['verts'][j][c], n1['verts'][j][c], 'id') for c in range(3)):
+            continue        # (a reader that re-normalises vertex quaternions changes at most the last bits of a unit quaternion: allowed by the property)
         for c, pn in enumerate(pv['nums']):
             if not close(n2['verts'][j][c], n1['verts'][j][c], pn['via']):
                 run.violation(dict(key, outcome='vertex-number'), '%s: vertex %r component %d: %r -> %r (class %s)' % (what, g1._vertices[j].id, c, n1['verts'][j][c], n2['verts'][j][c], pn['via']))
